@@ -14,7 +14,8 @@ while os.path.exists(os.path.join(out, "mut%d.diff" % n)):
         print("no demo for", n); n += 1; continue
     demo = os.path.join(out, demos[0])
     head = open(demo, errors="replace").read(3000)
-    m = re.search(r"(crates/[A-Za-z0-9_/\.\-]+\.(?:rs|koto))", head)
+    # the demo's destination is a test file: never take a source path mentioned in the header (it is rm'ed)
+    m = re.search(r"(crates/[A-Za-z0-9_/\.\-]+/tests/[A-Za-z0-9_\.\-]+\.(?:rs|koto))", head)
     c = re.search(r"cargo (?:nextest run|test) (?:--offline )?-p ([a-z_]+) (?:--offline )?--test ([A-Za-z0-9_]+)", head)
     if not m or not c:
         print("cannot parse placement/command for demo", n, "->", demo); n += 1; continue
